@@ -19,13 +19,16 @@ CHECKS = {
                 note="record sizes in (largest power of two <= max, max] are not drawn for non-power-of-two maxima"),
     "C09": dict(cat="exploration", ref="6/C09", tech="runtime monitoring: bounded-progress probes at exact quiescent states (queue level) and idle-cycle progress verdicts end to end",
                 text="'Eventually' restated as bounded progress at quiescence. Queue level: after random histories the consumer drains and commits, then every "
-                     "request up to the capacity (top 70 sizes + random) must be granted at once; unbounded: n <= max granted after at most one switch. "
-                     "The unchanged tree failed this (reader position published in batches); repaired by a fix: commit, check stays armed.",
+                     "request up to the capacity (top 70 sizes + random) must be granted at once; unbounded: n <= max granted after at most one switch. End to end "
+                     "(e2e family progress): near-capacity statements through blocking queues must return (mode S: 1000 backend idle cycles with the producer still "
+                     "retrying = stuck; mode F: >=100 retries while the backend reported all-empty >=100 times), dropping queues must accept a fitting statement on an "
+                     "empty queue. The unchanged tree failed this (reader position published in batches); repaired by a fix: commit, check stays armed.",
                 note="liveness is judged in logical steps (quiescent probes / backend idle cycles), never in seconds"),
     "C12": dict(cat="exploration", ref="6/C12", tech="runtime monitoring: per-call differential of PatternFormatter::format against an independent pattern substitution (dbg + ASan/UBSan)",
                 text="Real PatternFormatter driven directly with generated valid patterns (random subset/order of the 16 attributes, fill/align/width/precision specs, "
                      "literal text, hostile attribute values, run-time MacroMetadata) and compared per call with an independent reference substitution; invalid "
-                     "patterns must throw at construction. Multi-line handling is judged end to end once the e2e family 'lines' is registered.",
+                     "patterns must throw at construction. End to end (e2e family lines, mode S): every arrangement of newlines with add_metadata_to_multi_line_logs on/off, "
+                     "plus runtime-supplied source metadata (LOG_RUNTIME_METADATA), tags and named args rendered through a real logger's pattern.",
                 note="bundled fmt is the trusted base for applying one spec to one value; empty pattern = documented 'formatting disabled', not judged"),
     "C13": dict(cat="exploration", ref="6/C13", tech="runtime monitoring: per-call differential of TimestampFormatter against libc strftime over generated patterns, zones and instant sequences (dbg + ASan/UBSan)",
                 text="Real TimestampFormatter/StringFromTime vs gmtime_r/localtime_r + strftime per call: ~10^7 calls per quick run over random patterns, 16 zones (all "
